@@ -136,7 +136,8 @@ def failSession (c : Cfg) (s : St) : Bool × St :=
   else
     let r := sendSession s { id := c.sid, from_ := c.node, to := s.remote, state := .failed, hasReason := true }
     let s2 := setState r.2 .failed
-    if r.1 then (true, closeT s2) else (false, s2)
+    -- the connection is released whether or not the envelope could be sent
+    (r.1, closeT s2)
 
 /-- `intersect` (order of the first list) -/
 def inter (a b : List Opt) : List Opt := a.filter (fun x => b.contains x)
